@@ -3,6 +3,7 @@ mod gen;
 mod replay;
 mod rng;
 mod svgops;
+mod histops;
 mod wasmops;
 mod tables;
 
